@@ -95,3 +95,31 @@ From XcpPins Require Import Pin_operations_tree_walker.
 Theorem C03_src_pin_operations_tree_walker : pin_unchanged name_operations_tree_walker.
 Proof. exact pin_operations_tree_walker. Qed.
 Print Assumptions C03_src_pin_operations_tree_walker.
+
+(* ---- further functions on this property's path, pinned token for token as validated (dependency review after rounds 5 and 6:
+   each missed change had edited a pinned function that this property did not cite) ---- *)
+From XcpPins Require Import Pin_main_main Pin_main_expand_sources Pin_linux_copy_node Pin_backup_get_backup_path Pin_operations_finalise_copy Pin_operations_drop Pin_operations_copy_file Pin_parblock_queue_file_blocks.
+Theorem C03_src_pin_main_main : pin_unchanged name_main_main.
+Proof. exact pin_main_main. Qed.
+Theorem C03_src_pin_main_expand_sources : pin_unchanged name_main_expand_sources.
+Proof. exact pin_main_expand_sources. Qed.
+Theorem C03_src_pin_linux_copy_node : pin_unchanged name_linux_copy_node.
+Proof. exact pin_linux_copy_node. Qed.
+Theorem C03_src_pin_backup_get_backup_path : pin_unchanged name_backup_get_backup_path.
+Proof. exact pin_backup_get_backup_path. Qed.
+Theorem C03_src_pin_operations_finalise_copy : pin_unchanged name_operations_finalise_copy.
+Proof. exact pin_operations_finalise_copy. Qed.
+Theorem C03_src_pin_operations_drop : pin_unchanged name_operations_drop.
+Proof. exact pin_operations_drop. Qed.
+Theorem C03_src_pin_operations_copy_file : pin_unchanged name_operations_copy_file.
+Proof. exact pin_operations_copy_file. Qed.
+Theorem C03_src_pin_parblock_queue_file_blocks : pin_unchanged name_parblock_queue_file_blocks.
+Proof. exact pin_parblock_queue_file_blocks. Qed.
+Print Assumptions C03_src_pin_main_main.
+Print Assumptions C03_src_pin_main_expand_sources.
+Print Assumptions C03_src_pin_linux_copy_node.
+Print Assumptions C03_src_pin_backup_get_backup_path.
+Print Assumptions C03_src_pin_operations_finalise_copy.
+Print Assumptions C03_src_pin_operations_drop.
+Print Assumptions C03_src_pin_operations_copy_file.
+Print Assumptions C03_src_pin_parblock_queue_file_blocks.
